@@ -90,7 +90,9 @@ def build_conn(b, seed, params=None):
                     if p.get("ncid_extend"):       # the new CID has the current one as a proper prefix (allowed by RFC 9000)
                         cid = c.cid[d] + c.g(4)
                     c.issued[d].append(cid)
-                    out += Q.f_new_connection_id(cidseq[d], 0, cid, w=w)
+                    # Retire Prior To = this sequence number: the issuer asks the peer to stop using every earlier connection ID; the peer's
+                    # packets already in flight (and whatever it sends before it has processed the frame) still carry the old one
+                    out += Q.f_new_connection_id(cidseq[d], cidseq[d] if p.get("retire_prior") else 0, cid, w=w)
                     cidseq[d] += 1
                 elif k == "done":
                     out += Q.f_handshake_done()
@@ -220,7 +222,13 @@ def run_quic(b, seed, params=None, opts=(), flow=None, trace=False, extra_dgrams
         ins = sorted(((rn.choice(ok_pos), d, mk) for d, mk in members), key=lambda x: -x[0])
         for k, d, mk in ins:
             pk.insert(k, (cap.pkts[k - 1][0] + 3, _uf(fl, d, mk())))
-    res = runner.run_inproc(pcapng_bytes(pk), "\n".join(c.keylog) + "\n", opts=list(opts), trace=trace)
+    sub = (params or {}).get("ts_sub")
+    if sub:     # a burst in a nanosecond-resolution capture: consecutive datagrams `sub` ns apart (>= 500: the reader's float keeps about 240 ns today)
+        t0n = pk[0][0] * 1000
+        data = pcapng_bytes([((t0n + i * sub, 10 ** 9), fr) for i, (_t, fr) in enumerate(pk)], tsresol=9)
+    else:
+        data = pcapng_bytes(pk)
+    res = runner.run_inproc(data, "\n".join(c.keylog) + "\n", opts=list(opts), trace=trace)
     return c, payload, fl, cap, res
 
 
